@@ -7,6 +7,7 @@ C04 line-protocol driver.
 -/
 import DarsiaModel.Basic
 import DarsiaModel.SolveLoop
+import DarsiaModel.WassersteinAux
 import DarsiaGen.SolveLoopGen
 open Darsia Darsia.SolveLoop
 
@@ -67,7 +68,29 @@ def handlePoints : List String → Option String
     pure (s!"sound={showBool c.sound} | " ++ " | ".intercalate bodies)
   | _ => none
 
+/-- `aux <dim> shape.. <dim> h.. <nc> cellweights.. <nq> wq.. <nq*dim> nodes.. <n> x..`
+→ `flux (cell-major F order, axis minor) | weighted flux | pressure (F order) | per cell, per quadrature point: squared norm of
+the weighted cell vector | weights` -/
+def handleAux (rest : List String) : Option String := do
+  let ((shape, h, cw, wq, nodes, x), _) ← (do
+    let s ← P.list P.nat; let h ← P.list P.rat; let cw ← P.list P.rat; let wq ← P.list P.rat
+    let nodes ← P.list P.rat; let x ← P.list P.rat; P.done
+    pure (s, h, cw, wq, nodes, x) : P _).run rest
+  let dim := shape.length
+  let xf : Nat → Rat := fun i => x.getD i 0
+  let wgt : List Nat → Nat → Rat := fun idx _ => cw.getD (encF shape idx) 1
+  let ptq : Nat → List Rat := fun q => (List.range dim).map fun a => nodes.getD (q * dim + a) 0
+  let o := WAux.callOut (fun _ => 0) shape h wq.length (fun q => wq.getD q 0) ptq wgt xf
+  let cells := boxF shape
+  let flux := cells.flatMap fun idx => (List.range dim).map fun a => o.flux idx a
+  let wflux := cells.flatMap fun idx => (List.range dim).map fun a => o.weightedFlux idx a
+  let press := cells.map o.pressure
+  let sq := cells.flatMap fun idx => (List.range wq.length).map fun q =>
+    WAux.sqNorm dim (cellVec shape xf wgt (ptq q) idx)
+  pure s!"{showRats flux} | {showRats wflux} | {showRats press} | {showRats sq}"
+
 def dispatch : List String → Option String
+  | "aux" :: rest => handleAux rest
   | "loop" :: rest => handleLoop rest
   | "points" :: rest => handlePoints rest
   | _ => none
